@@ -63,6 +63,7 @@ fn main() {
     println!("  {:?}: {:?},", "t056", format!("{:?}", mrtest::t056()));
     println!("  {:?}: {:?},", "t057", format!("{:?}", mrtest::t057()));
     println!("  {:?}: {:?},", "t058", format!("{:?}", mrtest::t058()));
-    println!("  {:?}: {:?}", "t059", format!("{:?}", mrtest::t059()));
+    println!("  {:?}: {:?},", "t059", format!("{:?}", mrtest::t059()));
+    println!("  {:?}: {:?}", "t060", format!("{:?}", mrtest::t060()));
     println!("}}");
 }
